@@ -42,8 +42,26 @@ func TestC07_Fallback(t *testing.T) {
 	B := constants.FuzzyNormalizationBase
 	rapid.Check(t, func(t *rapid.T) {
 		cmds, cls := gen.DB(t, gen.CmdOpts{Platforms: true, Unicode: rapid.IntRange(0, 3).Draw(t, "u") == 0, Long: true}, []int{0, 1, 3, 10, 1})
+		needle := ""
+		if rapid.IntRange(0, 7).Draw(t, "needle-db") == 0 {
+			// a large database with ONE entry that can answer, at a drawn position (ends and block
+			// boundaries included): whatever batches, chunks or caps the matcher works in, it must reach it
+			n := rapid.OneOf(rapid.SampledFrom([]int{255, 256, 257, 258, 259, 511, 513, 1001, 1003, 1023, 1025, 1026, 1027}), rapid.IntRange(200, 1100)).Draw(t, "needle-n")
+			cmds = gen.Bulk(t, n, gen.CmdOpts{})
+			pos := rapid.OneOf(rapid.SampledFrom([]int{0, 1, n - 1, n - 2, n - 3, n - 4, n / 2, n / 4, 255, 256, 1023, 1024}), rapid.IntRange(0, n-1)).Draw(t, "needle-pos")
+			if pos >= n {
+				pos = n - 1
+			}
+			needle = rapid.SampledFrom([]string{"qzjxvk", "wyvernquoz", "xyzzyplugh"}).Draw(t, "needle-word")
+			cmds[pos] = database.Command{Command: "run " + needle + " now", Description: "the only entry that can answer"}
+			cls = "needle"
+		}
 		db := gen.Load(t, cmds)
 		q, qc := gen.Query(t, cmds, []gen.QueryClass{"vocab", "typo", "typo", "typo", "fragment", "fragment", "one", "punct", "mixed", "unicode", "stop"})
+		if needle != "" {
+			d := rapid.IntRange(0, len(needle)-1).Draw(t, "needle-drop")
+			q, qc = needle[:d]+needle[d+1:], "needle-typo" // one letter dropped: no lexical match, a subsequence of the needle only
+		}
 		q = stripNUL(q)
 		longTail := false
 		for i := range cmds {
